@@ -349,6 +349,8 @@ func bases(server string) []base {
 				Comps: []vdav.CompF{{Name: "VALARM", IND: true}}}}}}
 		mg := vdav.CalMultiGet{Data: vdav.CalData{Present: true}, OtherProps: []string{"getetag"}, Hrefs: []string{objICS, "/u/h/c/none.ics"}}
 		l = append(l,
+			base{method: "REPORT", path: collP, hdr: [][2]string{{"Content-Type", xmlCT}, {"Depth", "1"}}, doc: vdav.CalQuery{Filter: vdav.CompF{Name: "VCALENDAR"}}.Node(), kind: "calquery"},
+			base{method: "REPORT", path: collP, hdr: [][2]string{{"Content-Type", xmlCT}}, doc: vdav.CalQuery{Data: vdav.CalData{Present: true}, Filter: vdav.CompF{Name: "VCALENDAR", Comps: []vdav.CompF{{Name: "VTODO"}}}}.Node(), kind: "calquery"},
 			base{method: "REPORT", path: collP, hdr: [][2]string{{"Content-Type", xmlCT}, {"Depth", "1"}}, doc: q.Node(), kind: "calquery"},
 			base{method: "REPORT", path: collP, hdr: [][2]string{{"Content-Type", xmlCT}, {"Depth", "1"}}, doc: mg.Node(func(s string) string { return s }), kind: "calmultiget"},
 			base{method: "PUT", path: "/u/h/c/new.ics", hdr: [][2]string{{"Content-Type", "text/calendar; charset=utf-8"}}, text: icalTxt, kind: "put"},
@@ -360,6 +362,8 @@ func bases(server string) []base {
 			PFs: []vdav.CardPropF{{Name: "EMAIL", Test: "anyof", TMs: []vdav.CardTM{{Text: "a", Type: "starts-with", Neg: true}, {Text: "b"}}, Params: []vdav.CardParamF{{Name: "TYPE", TM: &vdav.CardTM{Text: "home", Type: "equals"}}}}, {Name: "NICKNAME", IND: true}}}
 		mg := vdav.CardMultiGet{Data: vdav.AddrData{Present: true, AllProp: true}, OtherProps: []string{"getetag"}, Hrefs: []string{objVCF, "/u/h/c/none.vcf"}}
 		l = append(l,
+			base{method: "REPORT", path: collP, hdr: [][2]string{{"Content-Type", xmlCT}, {"Depth", "1"}}, doc: vdav.CardQuery{}.Node(), kind: "cardquery"},
+			base{method: "REPORT", path: collP, hdr: [][2]string{{"Content-Type", xmlCT}}, doc: vdav.CardQuery{Data: vdav.AddrData{Present: true, AllProp: true}, PFs: []vdav.CardPropF{{Name: "FN"}}}.Node(), kind: "cardquery"},
 			base{method: "REPORT", path: collP, hdr: [][2]string{{"Content-Type", xmlCT}, {"Depth", "1"}}, doc: q.Node(), kind: "cardquery"},
 			base{method: "REPORT", path: collP, hdr: [][2]string{{"Content-Type", "text/xml"}, {"Depth", "1"}}, doc: mg.Node(func(s string) string { return s }), kind: "cardmultiget"},
 			base{method: "PUT", path: "/u/h/c/new.vcf", hdr: [][2]string{{"Content-Type", "text/vcard"}}, text: vcardTx, kind: "put"},
